@@ -87,6 +87,15 @@ ScalarCmp0ImpliesEq == \A j \in 1..NU :
 ObjCmp0 == \A j \in 1..NU : (u[i].t = "obj" /\ u[j].t = "obj") =>
               ((C(i, j) = 0) <=> (/\ Len(u[i].l) = Len(u[j].l)
                                   /\ \A k \in 1..Len(u[i].l) : Cmp(u[i].l[k], u[j].l[k]) = 0))
+\* long strings take the bisection path of LexCmp: it must agree with the plain scan
+Long(n, pos, c) == [k \in 1..n |-> IF k = pos THEN c ELSE 120]
+LongStrs == << Long(30, 0, 0), Long(31, 0, 0), Long(30, 30, 121), Long(30, 17, 0), Long(30, 1, 255),
+               Long(64, 33, 119), Long(64, 0, 0), Long(25, 25, 119), Long(25, 0, 0) >>
+LongLexOK == \A a, b \in 1..Len(LongStrs) :
+                LET x == LongStrs[a]
+                    y == LongStrs[b]
+                IN /\ LexCmp(x, y) = LexFrom(x, y, 1, Min2(Len(x), Len(y)))
+                   /\ LexCmp(x, y) = -LexCmp(y, x)
 WellFormed == WF(u[i])
 \* anti-vacuity: the universe contains equal objects written differently and unequal
 \* objects that compare 0, and values of every type
